@@ -172,6 +172,9 @@ func render(r reflect.Value, path string, depth int, out map[string]string, vis 
 	return fmt.Sprint(r.Interface())
 }
 
+// Render renders one value without recursing into library objects.
+func Render(r reflect.Value, path string, out map[string]string) string { return render(r, path, 0, out, nil) }
+
 // brief renders a library object without recursion: type name + its most specific printed form.
 func brief(r reflect.Value) string {
 	tn := typeName(r.Type())
